@@ -227,11 +227,11 @@ fn huge_value_history(ps: u64) -> History {
     let put = |h: H, key: &[u8], tag: u64, len: usize| Op::Put { h, k: K::lit(key), v: V { tag, len }, how: How::Slice, vhow: How::Slice };
     let tx = |ops: Vec<Op>| TxScript { ops, end: End::Commit, reopen: false };
     let mut txs = vec![
-        tx(vec![Op::TxCreate { k: K::lit(b"blob"), how: How::Slice }, put(0, b"k", 1, first)]),
+        tx(vec![Op::TxCreate { k: K::lit(b"blob"), how: How::Slice }, put(0, b"k", 1_000_001, first)]),
         tx(vec![Op::TxCreate { k: K::lit(b"tail"), how: How::Slice }, put(0, b"a", 2, 1)]),
         tx(vec![Op::TxCreate { k: K::lit(b"tail2"), how: How::Slice }, put(0, b"a", 3, 1)]),
         tx(vec![Op::TxGet { k: K::lit(b"blob"), how: How::Slice }, Op::Delete { h: 0, k: K::lit(b"k") }]),
-        tx(vec![Op::TxGet { k: K::lit(b"blob"), how: How::Slice }, put(0, b"k", 4, second)]),
+        tx(vec![Op::TxGet { k: K::lit(b"blob"), how: How::Slice }, put(0, b"k", 1_000_004, second)]),
         tx(vec![Op::TxGet { k: K::lit(b"blob"), how: How::Slice }, Op::GetKv { h: 0, k: K::lit(b"k") }, Op::TxGet { k: K::lit(b"tail"), how: How::Slice }, Op::GetKv { h: 1, k: K::lit(b"a") }, Op::TxGet { k: K::lit(b"tail2"), how: How::Slice }, Op::GetKv { h: 2, k: K::lit(b"a") }, put(1, b"a", 5, 1), put(1, b"b", 6, 1), put(2, b"a", 7, 1), put(2, b"b", 8, 1)]),
     ];
     txs.last_mut().unwrap().reopen = true;
